@@ -98,7 +98,7 @@ package proposal
 //@   ensures {C11} refusal-recorded: deviceSetCalls > old(deviceSetCalls) && err == nil && deviceCode != codes.OK && deviceCode != codes.Unavailable && deviceCode != codes.Canceled && deviceCode != codes.DeadlineExceeded && deviceCode != codes.PermissionDenied ==> applyState(proposal) == configapi.ProposalApplyPhase_FAILED && proposal.Status.Phases.Apply.Failure != nil && proposal.Status.Phases.Apply.Failure.Type == failureOfCode(deviceCode) && storedCfgApplied == proposal.TransactionIndex
 // write order on a refusal: the applied index may pass a refused change only once the refusal is on record,
 // otherwise a crash (or a lost write) between the two turns the refused change into an APPLIED one on restart
-//@   ensures {C07,C11} refusal-on-record-before-index-moves: deviceSetCalls > old(deviceSetCalls) && deviceCode != codes.OK && deviceCode != codes.Unavailable && deviceCode != codes.Canceled && deviceCode != codes.DeadlineExceeded && deviceCode != codes.PermissionDenied && cfgStatusWrites > old(cfgStatusWrites) ==> proposalStatusWrites > old(proposalStatusWrites) && lastPropWriteAtCfgStatusWrites == old(cfgStatusWrites)
+//@   ensures {C07,C11} refusal-on-record-before-index-moves: deviceSetCalls > old(deviceSetCalls) && deviceCode != codes.OK && deviceCode != codes.Unavailable && deviceCode != codes.Canceled && deviceCode != codes.DeadlineExceeded && deviceCode != codes.PermissionDenied && cfgStatusWrites > old(cfgStatusWrites) ==> proposalStatusWrites > old(proposalStatusWrites) && lastPropWriteAtCfgStatusWrites == old(cfgStatusWrites) && lastProposalWriteOK
 //@   ensures {C11} failed-only-on-refusal: applyState(proposal) == configapi.ProposalApplyPhase_FAILED && old(applyState(proposal)) == configapi.ProposalApplyPhase_APPLYING && deviceSetCalls > old(deviceSetCalls) ==> deviceCode != codes.OK && deviceCode != codes.Unavailable && deviceCode != codes.Canceled && deviceCode != codes.DeadlineExceeded && deviceCode != codes.PermissionDenied
 
 // failure class recorded for a device status code (the table of the property statement: the device's error class)
